@@ -16,11 +16,12 @@ PNameOf == [ entity |-> "entity", activity |-> "activity", agent |-> "agent",
              influence |-> "wasInfluencedBy", specialization |-> "specializationOf",
              alternate |-> "alternateOf", mention |-> "mentionOf", membership |-> "hadMember" ]
 XsdN(l) == [p |-> "xsd", l |-> <<l>>]
+IsoMark == [p |-> "?isostr", l |-> <<>>]     \* not a datatype: a plain string that looks like a time
 StrLit(payload, dt, lang) == [l |-> "str", pay |-> payload, dt |-> dt, lang |-> lang]
 (* encoding_provn_value / provn_representation *)
 PNLitOf(v) ==
   CASE v.t = "str"    -> StrLit(v.v, <<>>, "")
-    [] v.t = "isostr" -> StrLit(v.v, <<"isostr">>, "")
+    [] v.t = "isostr" -> StrLit(v.v, <<IsoMark>>, "")
     [] v.t = "int"    -> [l |-> "int", v |-> v.v]
     [] v.t = "float"  -> StrLit(v.v, <<XsdN("double")>>, "")
     [] v.t = "bool"   -> StrLit(v.v, <<XsdN("boolean")>>, "")
@@ -70,7 +71,7 @@ AbsPNLit(l) ==
                     ELSE IF l.dt = <<>> /\ l.lang = "" /\ l.s.iso # "" /\ l.s.v \notin {"s1", "s2", "e", "nq"} THEN l.s.iso
                     ELSE l.s.v
          IN StrLit(pay, IF l.dt = <<>> /\ l.lang = "" /\ l.s.iso # "" /\ l.s.v \notin {"s1", "s2", "e", "nq"}
-                        THEN <<"isostr">> ELSE l.dt, l.lang)
+                        THEN <<IsoMark>> ELSE l.dt, l.lang)
 AbsPNExpr(e) == [name |-> e.name, hasid |-> e.hasid, id |-> e.id, args |-> e.args, hasattrs |-> e.hasattrs,
                  attrs |-> {<<e.attrs[i][1], AbsPNLit(e.attrs[i][2])>> : i \in 1..Len(e.attrs)}]
 AbsPN(ast) ==
